@@ -944,11 +944,18 @@ def number_key(h: Harness, site: NumSite, text: str, o: Outcome, info: dict[str,
             cands.append(("through-decimal-context",
                           int(decimal.Context(prec=28).create_decimal(text))))
             for name, via in cands:
-                if via != exp:
-                    o2, _ = eval_number(h, site, text, use_async=use_async, written=str(via))
-                    if o2.out == o.out:
-                        what = name
-                        break
+                if via == exp:
+                    continue
+                hit = site.mode == "print" and o.observed == via
+                if not hit:
+                    # a branch (or an emptied range) does not show the value: ask the engine
+                    # whether the literal equals via
+                    o2 = h.render("{% if " + text + " == v %}T{% else %}F{% endif %}", {},
+                                  {"v": via, "g": 1})
+                    hit = o2.kind == "ok" and o2.out == "T"
+                if hit:
+                    what = name
+                    break
         elif site.mode == "print" and isinstance(o.observed, float):
             if o.observed == float(int(exp)):
                 what = "truncated"
@@ -1179,8 +1186,9 @@ def _limit_probes(h: Harness) -> None:
         probes.append(("-" + digits(total), "beyond"))
         for mk in EXP_MARKS:
             probes.append((f"{digits(rng.choice([1, 5, 40]))}{mk}{total}", "beyond"))
-    probes += [("1e99999999", "beyond"), ("7E+123456789012345678901234567890", "beyond"),
-               ("1e" + "9" * 5000, "beyond")]
+    # far beyond: the harness itself must not build the number, only the refusal is checked
+    probes += [("1e99999999", "extreme"), ("7E+123456789012345678901234567890", "extreme"),
+               ("-3e" + "9" * 5000, "extreme")]
     for text, zone in probes:
         for name in LIMIT_SITES:
             check_limit_probe(h, name, text, zone)
@@ -1191,7 +1199,13 @@ def check_limit_probe(h: Harness, name: str, text: str, zone: str) -> None:
 
     ctx = h.ctx
     site = NUMSITE[name]
-    o, _info = eval_number(h, site, text)
+    if zone == "extreme":
+        src = site.src.replace("«N»", text)
+        o = h.render(src, dict(site.partials), {"g": 1, "v": 0})
+        if o.kind == "ok":  # cannot be right: the value has millions of digits
+            o = Outcome("wrong", observed=o.out[:40], out=o.out[:40])
+    else:
+        o, _info = eval_number(h, site, text)
     ctx.ev()
     ctx.count("number_evaluations")
     ctx.count("limit_probes_" + zone)
